@@ -66,6 +66,13 @@ def instances(tier, seed):
                         h = H[2]
                     add(spec=fam.with_horizon(s, h), cfg=Cfg(method, N=N, M=M, intg=intg or 'rk', grid=grids[n % 4], degree=degree, scheme=scheme), when=when)
                     n += 1
+    # parameter values assigned AFTER the transcription (MPC style), one parameter at a time and several at once through a concatenation, then saved
+    for mi, (method, intg) in enumerate((('MS', 'rk'), ('DC', None), ('SS', 'rk'))):
+        s = copy.deepcopy(models()[-1])
+        s.params = list(s.params) + [Sym('b2', value=Fr(3, 2))]
+        s.cons = list(s.cons) + [Con('<=', X(1) * Pg('b2'), 12)]
+        s.note = 'values set after transcription'
+        add(spec=fam.with_horizon(s, H[mi]), cfg=Cfg(method, N=2, M=[1, 2][mi % 2], intg=intg or 'rk', grid=grids[mi], degree=2, scheme='radau'), when='value-after')
     # seeded random problems (model, constraints, objective, guesses): the relational comparison needs no reference semantics
     from .. import randspec
     rr = random.Random(seed * 7919 + 1818)
@@ -153,6 +160,19 @@ def run(item):
             cfg.N = cfg.N + 1
             b.ocp.method(make_method(cfg))
             b.cfg = cfg
+    if when == 'value-after':
+        with quiet():
+            b.ocp._transcribed
+            gp_ = [p_ for p_ in spec.params if p_.grid == '' and p_.n == 1 and p_.name not in ('pt0', 'pT')]
+            spec = copy.deepcopy(spec)
+            newv = [Fr(7, 4), Fr(5, 4)]
+            b.ocp.set_value(ca.vertcat(*[b.psym[p_.name] for p_ in gp_[:2]]), [float(v) for v in newv[:len(gp_[:2])]])
+            for p_, v in zip(gp_[:2], newv):
+                [q for q in spec.params if q.name == p_.name][0].value = v
+            pc_ = [p_ for p_ in spec.params if p_.grid == 'control' and p_.n == 1]
+            if pc_:
+                b.ocp.set_value(b.psym[pc_[0].name], 2.5)
+                [q for q in spec.params if q.name == pc_[0].name][0].value = Fr(5, 2)
     def casadi_pickles():
         import pickle
         try:
@@ -182,7 +202,7 @@ def run(item):
         except Exception as e:
             return {'status': 'violation', 'stats': {}, 'obligations': 1, 'discharged': 0, 'shape': '%s|%s' % (cfg.tag(), when),
                     'violations': [{'property': PROP, 'key': 'save-raises|%s|save-%s' % (cfg.method, when), 'label': 'save/load', 'cfg': repr(cfg), 'spec': spec.note,
-                                    'detail': 'ocp.save/Ocp.load raised for a save %s: %s' % ({'edited': 'after a transcription followed by subject_to', 'edited-method': 'after a transcription followed by method(...)', 'after': 'after a transcription', 'before': 'before the first transcription', 'load-edit': 'before the first transcription', 'resave': 'to the same file name before and after an edit'}[when], str(e).strip().splitlines()[-1][:200])}]}
+                                    'detail': 'ocp.save/Ocp.load raised for a save %s: %s' % ({'edited': 'after a transcription followed by subject_to', 'edited-method': 'after a transcription followed by method(...)', 'after': 'after a transcription', 'before': 'before the first transcription', 'load-edit': 'before the first transcription', 'resave': 'to the same file name before and after an edit', 'value-after': 'after a transcription followed by set_value'}[when], str(e).strip().splitlines()[-1][:200])}]}
     finally:
         if os.path.exists(path):
             os.remove(path)
@@ -213,6 +233,8 @@ def run(item):
                                  'detail': '%s through the accessors of the loaded OCP raised (%s) although the same edit is accepted by the original' % (nm, str(e).strip().splitlines()[-1][:160])})
         spec = copy.deepcopy(spec)
         spec.cons = list(spec.cons) + [Con('<=', X(0), 11)]
+        if gp:
+            [q for q in spec.params if q.name == gp[0].name][0].value = Fr(7, 4)
     if pickles_before and not casadi_pickles():
         viol.append({'property': PROP, 'key': 'process-damaged|%s|save-%s' % (cfg.method, when), 'label': 'pickle(casadi.DM)', 'cfg': repr(cfg), 'spec': spec.note,
                      'detail': "after ocp.save()/Ocp.load(), CasADi objects can no longer be pickled in this process (CasADi's own hooks were removed)"})
@@ -268,6 +290,21 @@ def run(item):
         pa, pb = list(O2.nlp.pval()), list(L.nlp.pval())
         if len(pa) != len(pb) or not all(close(float(a), float(c)) for a, c in zip(pa, pb)):
             V('p-differs', 'p', 'parameter values differ after load: %s vs %s' % (pa, pb))
+        # ground: the values the parameters carry in the original (after the save) and in the loaded OCP are the ones last assigned
+        for who, bb in (('original after save', b), ('loaded', b2)):
+            for p_ in spec.params:
+                if p_.value is None or p_.n != 1 or p_.grid != '':
+                    continue
+                try:
+                    op_ = bb.ocp._method.opti
+                    got = float(op_.debug.value(bb.ocp.value(bb.psym[p_.name]), op_.initial()))
+                except Exception as e_:
+                    V('p-unreadable', p_.name, 'value of parameter %s of the %s OCP cannot be read: %s' % (p_.name, who, str(e_)[:120]))
+                    continue
+                if not close(got, float(p_.value)):
+                    V('p-stale:%s' % who.split()[0], p_.name, 'parameter %s of the %s OCP has value %r, last assigned value is %r' % (p_.name, who, got, float(p_.value)))
+                else:
+                    ch.proved.append('value %s (%s)' % (p_.name, who))
         # named quantities of the loaded OCP (through ITS accessors) equal those of the original
         for d in O2.domains():
             pass
